@@ -35,6 +35,8 @@ def cases(seed, tier):
                "sub": int(rng.integers(0, 2**31))}
     for j, B in enumerate([4096, 8192, 16384, 65536] if tier == "quick" else [512, 1024, 2048, 4096, 8192, 12288, 16384, 32768, 65536, 131072]):
         yield {"family": "header-size", "boundary": B, "delim": rs.DELIMS[1 + j % 5], "route": "sfile", "sub": int(rng.integers(0, 2**31))}
+    for j in range(1 if tier == "quick" else 3):
+        yield {"family": "aligned-rows", "delim": ",", "route": "recfile", "sub": int(rng.integers(0, 2**31))}
 
 
 def install():
@@ -170,9 +172,50 @@ def classify(table, delim, what_field, names):
     return None
 
 
+def run_aligned_rows(case):
+    """A text file of more than 16 MiB whose lines all have the same power-of-two length (two 15-digit integers would
+    give 32 bytes, one gives 16): every power-of-two offset - whatever block size a reader counts or scans lines in - is
+    a line end.  Read through the route that has to count the rows itself (no header, no nrows)."""
+    from esutil import recfile
+    rng = np.random.default_rng(case["sub"])
+    d = os.environ.get("VERIF_CASEDIR", ".")
+    path = os.path.join(d, "c04a_%d.rec" % case["_i"])
+    two = bool(rng.integers(0, 2))
+    n = (2 ** 24 // (32 if two else 16)) + int(rng.integers(3, 2000))
+    t = np.zeros(n, dtype=[("a", "<i8")] + ([("b", ">i8")] if two else []))
+    t["a"] = 10 ** 14 + np.arange(n, dtype="i8") * 7
+    if two:
+        t["b"] = 10 ** 15 - 1 - np.arange(n, dtype="i8") * 3
+    delim = str(rng.choice([",", " ", "\t", ":"]))
+    wit = {"rows": n, "row_bytes": 32 if two else 16, "delim": delim}
+    COL.sample(dict(wit, family="aligned-rows"), limit=2)
+    try:
+        recfile.write(path, t, delim=delim)
+    except Exception as e:
+        COL.violation("C04.cells", "recfile.write of %d rows raised %s: %s" % (n, type(e).__name__, str(e)[:140]), wit)
+        return
+    size = os.path.getsize(path)
+    got, e = probe.attempt(recfile.read, path, t.dtype, delim=delim)
+    if e is not None:
+        COL.violation("C04.cells", "recfile.read of a %d-byte text file raised %s: %s" % (size, type(e).__name__, str(e)[:140]), wit)
+    elif size != n * (32 if two else 16):
+        COL.violation("C04.file", "the text file has %d bytes for %d rows of %d bytes" % (size, n, 32 if two else 16), wit)
+    elif got.size != n or not all(np.array_equal(got[k], t[k]) for k in t.dtype.names):
+        COL.violation("C04.cells", "text file of %d rows (%d bytes, every line %d bytes): read returns %d rows%s" % (
+            n, size, 32 if two else 16, got.size, "" if got.size != n else " with other values"), wit, key="aligned-rows")
+    else:
+        COL.ok("C04.cells", ("aligned-rows", two, delim))
+    try:
+        os.unlink(path)
+    except OSError:
+        pass
+
+
 def run_case(case):
     if case["family"] == "header-size":
         return run_header_size(case)
+    if case["family"] == "aligned-rows":
+        return run_aligned_rows(case)
     from esutil import sfile, recfile
     import esutil.io as eio
     rng = np.random.default_rng(case["sub"])
